@@ -121,7 +121,8 @@ func init() {
 			mn, mx := tierOps(tier, 8, 28)
 			rc := &RunConfig{Property: "C01", Profile: "churn", Seed: seed, Ctl: sampleCtl(r), MapOrder: r.IntN(2) == 0,
 				Lagfree: r.IntN(4) == 0, MidSched: r.IntN(2) == 0}
-			rc.World, rc.Ops = GenerateRun(seed, GenOptions{Sparse: r.IntN(3) == 0, ExcludeIngressKeys: alwaysExcludedIngressKeys, MinOps: mn, MaxOps: mx,
+			rc.Ctl.TCPConfigMap = r.IntN(5) == 0
+			rc.World, rc.Ops = GenerateRun(seed, GenOptions{Sparse: r.IntN(3) == 0, ExcludeIngressKeys: alwaysExcludedIngressKeys, MinOps: mn, MaxOps: mx, TCPConfigMap: rc.Ctl.TCPConfigMap,
 				QuiesceEvery: pickInt(r, 3, 5, 9), KeysPerRun: pickInt(r, 4, 7, 10)})
 			return rc
 		}})
@@ -134,6 +135,23 @@ func init() {
 				Lagfree: r.IntN(4) == 0, MidSched: r.IntN(2) == 0}
 			rc.World, rc.Ops = GenerateRun(seed, GenOptions{Sparse: r.IntN(3) == 0, IngressKeys: []string{"tcp-service-port", "ssl-redirect", "balance-algorithm", "timeout-server", "initial-weight", "backend-protocol"},
 				MinOps: mn, MaxOps: mx, QuiesceEvery: pickInt(r, 3, 5), KeysPerRun: 4})
+			return rc
+		}})
+
+	// ConfigMap based TCP services (legacy `--tcp-services-configmap`): rebuilt from scratch by every sync, no tracking
+	register(&Profile{Name: "churn-tcpcm", Prop: "C01", Weight: 1,
+		Oracles: OracleSet{Property: "C01", FreshAtSync: true, EffectiveAtSync: true},
+		Build: func(seed uint64, tier string) *RunConfig {
+			r := cfgRng(seed)
+			mn, mx := tierOps(tier, 8, 22)
+			ctl := sampleCtl(r)
+			ctl.TCPConfigMap = true
+			rc := &RunConfig{Property: "C01", Profile: "churn-tcpcm", Seed: seed, Ctl: ctl, MapOrder: r.IntN(2) == 0,
+				Lagfree: r.IntN(4) == 0, MidSched: r.IntN(2) == 0}
+			w := map[string]int{"tcpcm_change": 10, "ing_create": 3, "ing_update": 4, "ing_delete": 2, "ep_scale": 8, "svc_update": 3, "svc_delete": 1, "svc_create": 2,
+				"secret_rotate": 5, "secret_delete": 2, "secret_create": 3, "renotify": 3, "global_change": 2, "advance": 3, "pod_term": 2}
+			rc.World, rc.Ops = GenerateRun(seed, GenOptions{Sparse: true, TCPConfigMap: true, IngressKeys: []string{"balance-algorithm", "timeout-server"},
+				MinOps: mn, MaxOps: mx, QuiesceEvery: pickInt(r, 3, 5), KeysPerRun: 2, W: w})
 			return rc
 		}})
 
@@ -153,7 +171,8 @@ func init() {
 			w["global_change"] = 10
 			w["ing_delete"] = 8
 			w["svc_delete"] = 3
-			rc.World, rc.Ops = GenerateRun(seed, GenOptions{Sparse: r.IntN(3) == 0, ExcludeIngressKeys: alwaysExcludedIngressKeys, MinOps: mn, MaxOps: mx,
+			rc.Ctl.TCPConfigMap = r.IntN(5) == 0
+			rc.World, rc.Ops = GenerateRun(seed, GenOptions{Sparse: r.IntN(3) == 0, ExcludeIngressKeys: alwaysExcludedIngressKeys, MinOps: mn, MaxOps: mx, TCPConfigMap: rc.Ctl.TCPConfigMap,
 				QuiesceEvery: 4, KeysPerRun: pickInt(r, 3, 6), W: w})
 			return rc
 		}})
@@ -308,7 +327,8 @@ func init() {
 				rc.Faults[pool[r.IntN(len(pool))]] = pickInt(r, 20, 50, 150, 400)
 			}
 			rc.MaxFaults = 1 + r.IntN(6)
-			rc.World, rc.Ops = GenerateRun(seed, GenOptions{Sparse: r.IntN(3) == 0, ExcludeIngressKeys: alwaysExcludedIngressKeys, MinOps: mn, MaxOps: mx,
+			rc.Ctl.TCPConfigMap = r.IntN(5) == 0
+			rc.World, rc.Ops = GenerateRun(seed, GenOptions{Sparse: r.IntN(3) == 0, ExcludeIngressKeys: alwaysExcludedIngressKeys, MinOps: mn, MaxOps: mx, TCPConfigMap: rc.Ctl.TCPConfigMap,
 				QuiesceEvery: 0, KeysPerRun: pickInt(r, 3, 7)})
 			// faults stop, no further cluster change happens, then the convergence check
 			last := rc.Ops[len(rc.Ops)-1]
@@ -566,7 +586,8 @@ func init() {
 			mn, mx := tierOps(tier, 8, 28)
 			rc := &RunConfig{Property: "C07", Profile: "stress", Seed: seed, Ctl: sampleCtl(r), MapOrder: r.IntN(2) == 0,
 				Lagfree: r.IntN(3) == 0, MidSched: r.IntN(2) == 0}
-			rc.World, rc.Ops = GenerateRun(seed, GenOptions{Sparse: r.IntN(3) == 0, ExcludeIngressKeys: []string{"waf", "cert-signer"}, MinOps: mn, MaxOps: mx,
+			rc.Ctl.TCPConfigMap = r.IntN(5) == 0
+			rc.World, rc.Ops = GenerateRun(seed, GenOptions{Sparse: r.IntN(3) == 0, ExcludeIngressKeys: []string{"waf", "cert-signer"}, MinOps: mn, MaxOps: mx, TCPConfigMap: rc.Ctl.TCPConfigMap,
 				QuiesceEvery: pickInt(r, 3, 6), KeysPerRun: pickInt(r, 5, 9, 14)})
 			return rc
 		}})
